@@ -5,11 +5,14 @@ import (
 	"fmt"
 	"math/rand"
 	"net/netip"
+	"os"
+	"path/filepath"
 	"strings"
 	"unicode/utf8"
 
 	"github.com/tailscale/setec/acl"
 	"github.com/tailscale/setec/audit"
+	"github.com/tailscale/setec/db"
 	"github.com/tailscale/setec/types/api"
 )
 
@@ -54,6 +57,86 @@ func traceAuditFmt(o opts) error {
 		emit("audit\tvalid=%s\thost=%s\tip=%s\tuser=%s\ttags=%s\taction=%s\tauth=%s\tsecret=%s\tver=%d\tid=%d\traw=%s",
 			b01(valid), hx(e.Principal.Hostname), hx(ip), hx(e.Principal.User), strings.Join(ts, "+"), hx(string(e.Action)),
 			b01(e.Authorized), hx(e.Secret), e.SecretVersion, e.ID, hb(buf.Bytes()))
+	}
+	return auditAfterClose(o)
+}
+
+// auditAfterClose: a database whose audit log is a real file; the log is closed (the server is
+// shutting down) while requests still arrive.  Every one of them must be refused with an error,
+// leave the database file and the log exactly as they were, and reveal nothing.
+//
+//	afterclose i= op= res=<err|ok> dbsame=<0|1> logsame=<0|1> closes=<n>
+func auditAfterClose(o opts) error {
+	if o.dir == "" {
+		return nil
+	}
+	kek, err := newKEK()
+	if err != nil {
+		return err
+	}
+	for i := 0; i < 6; i++ {
+		r := rng(o.seed, 7000+i)
+		work := filepath.Join(o.dir, fmt.Sprintf("afterclose%d", i))
+		os.MkdirAll(work, 0700)
+		logPath := filepath.Join(work, "audit.log")
+		aw, err := audit.NewFile(logPath)
+		if err != nil {
+			return err
+		}
+		dbPath := filepath.Join(work, "setec.db")
+		d, err := db.Open(dbPath, kek, aw)
+		if err != nil {
+			return err
+		}
+		su := superuser()
+		d.Put(su, "k", []byte("one"))
+		d.Put(su, "k", []byte("two"))
+		d.Put(su, "other", []byte("x"))
+		closes := 1 + r.Intn(2) // Close may be called more than once during a shutdown
+		for c := 0; c < closes; c++ {
+			aw.Close()
+		}
+		for _, op := range []string{"get", "getver", "info", "list", "put", "putnew", "activate", "delver", "delete"} {
+			dbBefore, _ := os.ReadFile(dbPath)
+			logBefore, _ := os.ReadFile(logPath)
+			var err error
+			func() {
+				defer func() {
+					if p := recover(); p != nil {
+						err = fmt.Errorf("panic: %v", p)
+					}
+				}()
+				switch op {
+				case "get":
+					_, err = d.Get(su, "k")
+				case "getver":
+					_, err = d.GetVersion(su, "k", 2)
+				case "info":
+					_, err = d.Info(su, "k")
+				case "list":
+					_, err = d.List(su)
+				case "put":
+					_, err = d.Put(su, "k", []byte("three"))
+				case "putnew":
+					_, err = d.Put(su, "fresh", []byte("y"))
+				case "activate":
+					err = d.Activate(su, "k", 2)
+				case "delver":
+					err = d.DeleteVersion(su, "k", 2)
+				case "delete":
+					err = d.Delete(su, "other")
+				}
+			}()
+			dbAfter, _ := os.ReadFile(dbPath)
+			logAfter, _ := os.ReadFile(logPath)
+			res := "err"
+			if err == nil {
+				res = "ok"
+			}
+			emit("afterclose\ti=%d\top=%s\tres=%s\tdbsame=%s\tlogsame=%s\tcloses=%d", i, op, res,
+				b01(bytes.Equal(dbBefore, dbAfter)), b01(bytes.Equal(logBefore, logAfter)), closes)
+		}
+		os.RemoveAll(work)
 	}
 	return nil
 }
